@@ -68,8 +68,13 @@ def bech32_encode(
     assert len(hrp) in range(1, 84), "human readable part length not in [1,83]"
     for char in hrp:
         assert int(char) in range(33, 127), "char in hrp not ascii value in [33, 126]"
-    assert len(data) in range(
-        6, bech32_max_len - len(hrp) - len(bech32_separator) - len(witness_version) + 1
+    assert (
+        len(hrp)
+        + len(bech32_separator)
+        + len(witness_version)
+        + (len(data) * 8 + 4) // 5
+        + 6
+        <= bech32_max_len
     ), "addr data exceeds MAX_LEN"
 
     encoded = b""
